@@ -111,7 +111,7 @@ struct Cfg {
 const EACS: [&str; 4] = ["", "ECU1", ":AP1", "ECU2:AP2:CT2,ECU1::CT1"];
 
 fn cfg_json(c: &Cfg) -> Value {
-    let ffn = ["", "dlf", "dlt-convert", "dlf with marker+event filters"][c.ffile];
+    let ffn = ["", "dlf", "dlt-convert", "dlf with marker+event filters", "dlf with a payload text that starts with a blank"][c.ffile];
     let stn = ["-a", "-x", "-s", ""][c.style];
     json!({"family": "options", "b": c.b, "e": c.e, "lcs": c.lcs, "eac": EACS[c.eac], "eac_i": c.eac, "filter_file": ffn, "ffile": c.ffile,
         "sort": c.sort, "style": stn, "style_i": c.style, "o": c.out, "file_perm": c.perm, "dup_file_arg": c.dup})
@@ -142,6 +142,7 @@ pub struct World {
     calc: Vec<u64>,
     dlf: String,
     dlf_marker: String,
+    dlf_blank: String,
     conv: String,
 }
 
@@ -193,10 +194,17 @@ impl World {
   <filter><type>3</type><name>e</name><ecuid>ECU2</ecuid><enablefilter>1</enablefilter><enableecuid>1</enableecuid><enableapplicationid>0</enableapplicationid><enablecontextid>0</enablecontextid><enablepayloadtext>0</enablepayloadtext></filter>
 </dltfilter>
 "#).expect("write dlf");
+        // a dlf whose positive filter is a payload text with a leading blank (" 1" is in "boot1 msg 1" but not in "boot1 msg 0")
+        let dlf_blank = format!("{dir}/f_blank.dlf");
+        std::fs::write(&dlf_blank, r#"<?xml version="1.0" encoding="UTF-8"?>
+<dltfilter>
+  <filter><type>0</type><name>p</name><payloadtext> 1</payloadtext><enablefilter>1</enablefilter><enableecuid>0</enableecuid><enableapplicationid>0</enableapplicationid><enablecontextid>0</enablecontextid><enablepayloadtext>1</enablepayloadtext><ignoreCase_Payload>0</ignoreCase_Payload><enableregexp_Payload>0</enableregexp_Payload></filter>
+</dltfilter>
+"#).expect("write dlf");
         let conv = format!("{dir}/f.txt");
         // third pair: a context id shorter than its application id
         std::fs::write(&conv, "AP2- CT1- AP1- CT2- AP1- C9-- ").expect("write conv");
-        World { dir, files, merged, lc, calc, dlf, dlf_marker, conv }
+        World { dir, files, merged, lc, calc, dlf, dlf_marker, dlf_blank, conv }
     }
     /// positive filters (ecu, apid, ctid) and negative filters of a configuration
     fn keep(&self, c: &Cfg, m: &Gm) -> bool {
@@ -224,7 +232,10 @@ impl World {
             pos.push((f(p.next()), f(p.next()), f(p.next())));
         }
         let hit = |f: &(Option<&[u8]>, Option<&[u8]>, Option<&[u8]>)| f.0.map_or(true, |e| e == trim4(&m.ecu)) && f.1.map_or(true, |a| a == trim4(&m.apid)) && f.2.map_or(true, |x| x == trim4(&m.ctid));
-        (pos.is_empty() || pos.iter().any(hit)) && !neg.iter().any(hit)
+        // ffile 4: one positive payload filter (a text with a leading blank); positive filters of all sources are OR-ed
+        let pay_pos = c.ffile == 4;
+        let pay_hit = pay_pos && m.text.contains(" 1");
+        ((pos.is_empty() && !pay_pos) || pos.iter().any(hit) || pay_hit) && !neg.iter().any(hit)
     }
     fn expected(&self, c: &Cfg) -> Vec<u32> {
         let mut v = vec![];
@@ -291,6 +302,9 @@ fn run_cfg(w: &World, c: &Cfg, tag: u64) -> Vec<(String, String, String)> {
         }
         2 => {
             cmd.arg("-f").arg(&w.conv);
+        }
+        4 => {
+            cmd.arg("-f").arg(&w.dlf_blank);
         }
         3 => {
             cmd.arg("-f").arg(&w.dlf_marker);
@@ -445,6 +459,14 @@ fn configs(tier: Tier) -> Vec<Cfg> {
             }
         }
     }
+    // the dlf with a blank-leading payload text: small product
+    for &eac in &eacs {
+        for &sort in &sorts {
+            for (style, out) in [(0usize, false), (3, true)] {
+                v.push(Cfg { b: None, e: None, lcs: None, eac, ffile: 4, sort, style, out, perm: 0, dup: false });
+            }
+        }
+    }
     // the same file named twice (dedup by canonical content/time), small product
     for &eac in &eacs {
         for &sort in &sorts {
@@ -465,7 +487,7 @@ impl Prop for C14 {
             assumptions: vec!["one generated input set (20 messages, 4 files); lifecycle ids of the CLI are assumed to count from 1 in creation order in a fresh process".into()],
             budget_s: (150, 1500),
             workers: 1,
-            required_landmarks: vec!["window", "lcs", "eac", "ffile_dlf", "ffile_conv", "ffile_dlf_marker", "sort", "o_file", "perm", "empty_selection", "nonempty_selection", "export_twice", "large_input"],
+            required_landmarks: vec!["window", "lcs", "eac", "ffile_dlf", "ffile_conv", "ffile_dlf_marker", "ffile_dlf_blank_payload", "sort", "o_file", "perm", "empty_selection", "nonempty_selection", "export_twice", "large_input"],
         }
     }
     fn prepare(&self, _t: Tier) -> Result<(), String> {
@@ -515,7 +537,7 @@ impl Prop for C14 {
         for (_, c, v) in res {
             ctx.mine();
             let exp = w.expected(&c);
-            for (flag, name) in [(c.b.is_some() || c.e.is_some(), "window"), (c.lcs.is_some(), "lcs"), (c.eac > 0, "eac"), (c.ffile == 1, "ffile_dlf"), (c.ffile == 2, "ffile_conv"), (c.ffile == 3, "ffile_dlf_marker"), (c.sort, "sort"), (c.out, "o_file"), (c.perm > 0, "perm"), (exp.is_empty(), "empty_selection"), (!exp.is_empty(), "nonempty_selection")] {
+            for (flag, name) in [(c.b.is_some() || c.e.is_some(), "window"), (c.lcs.is_some(), "lcs"), (c.eac > 0, "eac"), (c.ffile == 1, "ffile_dlf"), (c.ffile == 2, "ffile_conv"), (c.ffile == 3, "ffile_dlf_marker"), (c.ffile == 4, "ffile_dlf_blank_payload"), (c.sort, "sort"), (c.out, "o_file"), (c.perm > 0, "perm"), (exp.is_empty(), "empty_selection"), (!exp.is_empty(), "nonempty_selection")] {
                 if flag {
                     ctx.landmark(name);
                 }
